@@ -1303,7 +1303,7 @@ fn exec_cmd(
 /// 1. Create a `work` vector containing a tuple of the file's path, and it's contents.
 /// 2. Call `execute()` on each file's contents
 /// 3. Decide how to handle output depending on whether args.edit_inplace is set.
-fn execute_multi_thread_files(mut stdout: io::StdoutLock, args: &Opts) {
+fn execute_multi_thread_files(stdout: io::Stdout, args: &Opts) {
 	let work: Vec<(PathBuf, String)> = args.files.par_iter()
 		.fold(Vec::new, |mut acc,file| {
 			let contents = fs::read_to_string(file).unwrap_or_else(complain_and_exit);
@@ -1326,6 +1326,8 @@ fn execute_multi_thread_files(mut stdout: io::StdoutLock, args: &Opts) {
 			};
 			(path, processed)
 		}).collect::<Vec<_>>();
+	// Only lock stdout once the workers are done: they may print too (e.g. 'echo')
+	let mut stdout = stdout.lock();
 
 	// Write back to file
 	if args.json  && args.files.len() > 1 {
@@ -1381,7 +1383,7 @@ fn execute_multi_thread_files(mut stdout: io::StdoutLock, args: &Opts) {
 ///
 /// Errors during reading, transformation, or writing will abort the program with a diagnostic.
 /// Backup files are created if `--backup-files` is enabled.
-fn execute_multi_thread_files_linewise(mut stdout: io::StdoutLock, args: &Opts) {
+fn execute_multi_thread_files_linewise(stdout: io::Stdout, args: &Opts) {
 
 	let work: Vec<(PathBuf, usize, String)> = args.files.par_iter()
 		.fold(Vec::new, |mut acc,file| {
@@ -1407,6 +1409,8 @@ fn execute_multi_thread_files_linewise(mut stdout: io::StdoutLock, args: &Opts) 
 			};
 			(path, line_no, processed)
 		}).collect::<Vec<_>>();
+	// Only lock stdout once the workers are done: they may print too (e.g. 'echo')
+	let mut stdout = stdout.lock();
 
 	// Separate content by file
 	let mut per_file: BTreeMap<PathBuf, Vec<(usize,String)>> = BTreeMap::new();
@@ -1571,28 +1575,26 @@ fn exec_linewise(args: &Opts) {
 			.build()
 			.unwrap_or_else(complain_and_exit);
 		pool.install(|| {
-			let mut stdout = io::stdout().lock();
 			let output = if !args.files.is_empty() {
-				execute_multi_thread_files_linewise(stdout, args);
+				execute_multi_thread_files_linewise(io::stdout(), args);
 				// Output has already been handled
 				std::process::exit(0);
 			} else {
 				let stream: Box<dyn BufRead> = Box::new(io::BufReader::new(io::stdin()));
 				execute_linewise(stream, args)
 			};
-			writeln!(stdout, "{output}").ok();
+			writeln!(io::stdout().lock(), "{output}").ok();
 		});
 	} else {
-		let mut stdout = io::stdout().lock();
 		let output = if !args.files.is_empty() {
-			execute_multi_thread_files_linewise(stdout, args);
+			execute_multi_thread_files_linewise(io::stdout(), args);
 			// Output has already been handled
 			std::process::exit(0);
 		} else {
 			let stream: Box<dyn BufRead> = Box::new(io::BufReader::new(io::stdin()));
 			execute_linewise(stream, args)
 		};
-		writeln!(stdout, "{output}").ok();
+		writeln!(io::stdout().lock(), "{output}").ok();
 	}
 
 }
@@ -1647,12 +1649,10 @@ fn exec_files(args: &Opts) {
 			.build()
 			.unwrap_or_else(complain_and_exit);
 		pool.install(|| {
-			let stdout = io::stdout().lock();
-			execute_multi_thread_files(stdout, args);
+			execute_multi_thread_files(io::stdout(), args);
 		});
 	} else {
-		let stdout = io::stdout().lock();
-		execute_multi_thread_files(stdout, args);
+		execute_multi_thread_files(io::stdout(), args);
 	}
 
 }
